@@ -1,5 +1,102 @@
-(** C15 — proofs *)
+(** C15 — proofs, part 5: the property theorems *)
 From Coq Require Import ZArith List Bool Lia.
 From ErgV Require Import Common.Sx gen.MarshalTab Marshal.Model Marshal.Spec.
+From ErgV Require Import Marshal.ProofsBase Marshal.ProofsPy Marshal.ProofsErg Marshal.ProofsTotal.
 Import ListNotations.
 Open Scope Z_scope.
+Ltac Zify.zify_post_hook ::= Z.to_euclidean_division_equations.
+
+(* ------------------------------------------------------------------ writer / python *)
+Lemma py_loads_dumps_proof : forall ver v b, serialisable v = true -> vdepth v <= MAX_MARSHAL_STACK_DEPTH ->
+  into_bytes ver v = Ok b -> py_loads ver b = POk (py_of ver v, []).
+Proof.
+  intros ver v b HS Hd Hb. rewrite into_bytes_wr in Hb by assumption. inversion Hb; subst.
+  apply py_loads_dumps_all; assumption.
+Qed.
+Lemma into_bytes_defined_proof : forall ver v, serialisable v = true -> exists b, into_bytes ver v = Ok b.
+Proof. intros. eexists. now apply into_bytes_wr. Qed.
+
+(* ------------------------------------------------------------------ writer / erg reader *)
+Lemma erg_read_write_proof : forall ver v b, serialisable v = true -> vdepth v <= MAX_DEPTH ->
+  into_bytes ver v = Ok b -> read_const ver b = Ok (norm ver v, []).
+Proof.
+  intros ver v b HS Hd Hb. rewrite into_bytes_wr in Hb by assumption. inversion Hb; subst.
+  apply erg_read_write_all; assumption.
+Qed.
+
+Lemma ver_of_magic_bound m v : ver_of_magic m = Some v -> 0 <= m < 65536.
+Proof.
+  unfold ver_of_magic, magic_ranges. cbn [ver_of_magic_in].
+  repeat match goal with |- (if ?c then _ else _) = _ -> _ =>
+    let E := fresh in destruct c eqn:E; [apply andb_true_iff in E; lia|] end.
+  discriminate.
+Qed.
+Lemma lor_magic m : 0 <= m < 65536 -> Z.lor 168624128 m = 168624128 + m.
+Proof.
+  intro H. rewrite <- Z.lxor_lor; [symmetry; apply Z.add_nocarry_lxor|];
+  (apply Z.bits_inj'; intros n Hn; rewrite Z.land_spec, Z.bits_0;
+   destruct (Z_lt_le_dec n 16) as [L|G];
+   [ change 168624128 with (2573 * 2 ^ 16); rewrite Z.mul_pow2_bits_low by lia; reflexivity
+   | replace (Z.testbit m n) with false; [apply andb_false_r|];
+     symmetry; destruct (Z.eq_dec m 0) as [->|NZ]; [apply Z.bits_0|];
+     apply Z.bits_above_log2; [lia|]; apply Z.log2_lt_pow2; [lia|];
+     apply Z.lt_le_trans with (2 ^ 16); [change (2 ^ 16) with 65536; lia|apply Z.pow_le_mono_r; lia] ]).
+Qed.
+
+Lemma magic_of_le4 L : nth 0 (le_bytes 4 L) 0 + 256 * nth 1 (le_bytes 4 L) 0 = L mod 65536.
+Proof. cbn [le_bytes nth]. lia. Qed.
+
+Lemma read_pyc_write_proof : forall magic ts ver c b, ver_of_magic magic = Some ver -> 0 <= ts < 4294967296 ->
+  serialisable (VCode c) = true -> vdepth (VCode c) <= MAX_DEPTH + 1 ->
+  into_bytecode magic ts c = Ok b ->
+  read_pyc b = Ok (ver, norm_code ver c (map (norm ver) (consts c))).
+Proof.
+  intros magic ts ver c b Hm Hts HS Hd Hb. pose proof (ver_of_magic_bound _ _ Hm) as Hmb.
+  unfold into_bytecode, into_bytecode_gen in Hb. rewrite Hm in Hb.
+  change (into_bytes_gen true ver (VCode c)) with (into_bytes ver (VCode c)) in Hb.
+  rewrite into_bytes_wr in Hb by assumption. cbn [bind] in Hb.
+  match type of Hb with Ok ?X = _ => remember X as bb eqn:Ebb end. injection Hb as Hb. subst b bb.
+  rewrite lor_magic by assumption.
+  unfold read_pyc, read_pyc_gen. rewrite (take_app 4) by (now rewrite le_bytes_len). cbn [bind].
+  rewrite magic_of_le4. replace ((168624128 + magic) mod 65536) with magic by lia.
+  rewrite Hm.
+  change [0; 0; 0; 0] with (le_bytes 4 0).
+  rewrite (rd_u32_le4 0) by lia. cbn [bind]. rewrite (rd_u32_le4 ts) by lia. cbn [bind]. rewrite (rd_u32_le4 0) by lia. cbn [bind].
+  change (from_bytes_gen true ver) with (from_bytes ver).
+  rewrite from_bytes_write_all; [reflexivity|assumption|unfold MAX_DEPTH in Hd; lia].
+Qed.
+
+(* ------------------------------------------------------------------ totality *)
+Lemma read_const_total_proof : forall ver bs, read_const ver bs <> Panic /\ read_const ver bs <> Fuel.
+Proof.
+  intros ver bs. unfold read_const, read_const_gen.
+  destruct (fine_rd (fuel_for bs)) as [H1 _]. destruct (H1 ver 0 bs) as (A & B & _); [unfold fuel_for; lia|]. now split.
+Qed.
+Lemma from_bytes_total_proof : forall ver bs, from_bytes ver bs <> Panic /\ from_bytes ver bs <> Fuel.
+Proof.
+  intros ver bs. unfold from_bytes, from_bytes_gen.
+  destruct (fine_from_bytes (rd_const true (fuel_for bs) ver 0) (length bs)) with (ver := ver) (bs := bs) as (A & B & _);
+    [|lia|now split].
+  intros bs' Hbs'. destruct (fine_rd (fuel_for bs)) as [H1 _]. apply H1. unfold fuel_for. lia.
+Qed.
+Lemma read_pyc_total_proof : forall bs, read_pyc bs <> Panic /\ read_pyc bs <> Fuel.
+Proof.
+  intro bs. unfold read_pyc, read_pyc_gen.
+  apply (calm_bind (length bs)); [apply fine_take|]. intros m r Hr. cbn beta iota zeta.
+  destruct (ver_of_magic _) as [ver|]; [|split; discriminate].
+  apply (calm_bind (length r)); [apply fine_rd_u32|]. intros x1 r1 H1. cbn beta iota.
+  apply (calm_bind (length r1)); [apply fine_rd_u32|]. intros x2 r2 H2. cbn beta iota.
+  apply (calm_bind (length r2)); [apply fine_rd_u32|]. intros x3 r3 H3. cbn beta iota.
+  destruct (from_bytes_total_proof ver r3) as [A B]. unfold from_bytes in *.
+  destruct (from_bytes_gen true ver r3) as [[c r4]|e| |]; cbn [bind]; try contradiction; split; discriminate.
+Qed.
+
+(* ------------------------------------------------------------------ the design-round state, refuted *)
+Lemma py_loads_dumps_nofix_refuted_proof :
+  exists v b, serialisable v = true /\ vdepth v <= MAX_MARSHAL_STACK_DEPTH /\ into_bytes_nofix 11 v = Ok b
+              /\ py_loads 11 b = POk (PInt (-1294967296), []) /\ py_of 11 v = PInt 3000000000.
+Proof. exists (VNat 3000000000), [105; 0; 94; 208; 178]. vm_compute. repeat split; congruence. Qed.
+
+Lemma read_total_nofix_refuted_proof :
+  (exists bs, read_pyc_nofix bs = Panic) /\ (exists bs, read_const_nofix 11 bs = Panic).
+Proof. split; [exists [1; 2; 3]|exists [41; 5; 78]]; vm_compute; reflexivity. Qed.
